@@ -201,6 +201,25 @@ def run_case(case):
         objs = [pterm(t) for t in js]
         out = _pairs(objs, [ref_term(t) for t in js], fam)
         out += _copies(objs[0], [("copy()", lambda t: t.copy())], fam)
+        # term-level renaming (merging and cancelling coefficients) must yield a normal term: == and hash-equal to its copy and to
+        # the same term built directly
+        from pacti.iocontract import Var as _V
+        base = case["base"]
+        names = sorted(base[0])
+        for src in names:
+            for tgt in [n for n in ("x", "y", "w") if n != src]:
+                for obj_j in (base, [{**base[0], tgt: -base[0][src]}, base[1]]):
+                    t = pterm(obj_j)
+                    r = t.rename_variable(_V(src), _V(tgt))
+                    d = dict(obj_j[0])
+                    d[tgt] = d.get(tgt, 0) + d.pop(src)
+                    direct = pterm([{k: v for k, v in d.items() if v != 0}, obj_j[1]])
+                    viol = None
+                    if not (r == r.copy()) or hash(r) != hash(r.copy()):
+                        viol = {"sub": [fam, "rename", src, tgt], "what": "a renamed term is not == / hash-equal to its own copy"}
+                    elif not (r == direct) or hash(r) != hash(direct):
+                        viol = {"sub": [fam, "rename", src, tgt, "direct"], "what": "a renamed term differs from the same term built directly (%s vs %s)" % (r, direct)}
+                    out.append(("path-eq", True, None, viol, {"hash-eq": 1}))
         return out
     if fam == "list":
         js = list_edits(case["base"])
